@@ -95,14 +95,23 @@ PROPERTIES = {
         not_decided=['"evicting an entry causes exactly one recomputation": bounded stand-in (custom mappings, LRU)'],
     ),
     'C03': dict(
-        level='other', category='other',
-        explanation='BOUNDED (not proved): contracts of this property are checked at run time on the real code by a '
-                    'systematic enumeration in virtual time / under forced interleavings (scenarios/props/c03.py; bounds '
-                    'in its summary line). The deductive contracts for buffered calls never lost are not discharged yet.',
-        assumptions=['bounded enumeration only: nothing outside the stated bounds is covered'],
-        not_decided=['everything beyond the bounds'],
-        technique='bounded run-time contract checking on the real code (stand-in for contract-based deductive '
-                  'verification, labelled bounded)',
+        level='proof', category='proof', always_standin=True,
+        explanation='safety kernel of "never lost", as per-function contracts on the real code: _process_queue, '
+                    'pointwise for an ARBITRARY producer dequeued in the round and an arbitrary element it produced: loop '
+                    'invariant "pending in input_gens or loaded with the element in the round\'s set", the set is the one '
+                    'set of the round and is what the wrapped function receives, every dequeued producer is loaded before '
+                    'the function runs, the round continues only after a new producer or a FAILED call and ends only after '
+                    'a successful one (never on the shared flag another thread can clear); _load_inputs keeps everything '
+                    'produced before a producer ends or fails and swallows the failure; _run_func: True <=> success <=> '
+                    'flag set, failure leaves flag and inputs alone; _put clears the flag then schedules exactly one '
+                    'thread-safe put of the producer; __call__/await_/map/amap hand exactly one producer built from the '
+                    'argument; _waiter runs rounds forever, inline',
+        assumptions=['A-propagate: user code resumed with the task\'s cancellation propagates it',
+                     'FIFO of call_soon_threadsafe callbacks; asyncio.Queue FIFO; gather runs every pending load',
+                     'the step from the per-function contracts to "every submitted value is in exactly one of queue / '
+                     'pending / inputs / delivered" is a hand lemma (DESIGN section 7), not machine-checked'],
+        not_decided=['"eventually" (the retry loop meets a succeeding call; the daemon is scheduled): liveness; the '
+                     'bounded stand-in runs timed programs with failing calls and foreign threads'],
     ),
     'C04': dict(
         level='proof', category='proof', always_standin=True,
@@ -120,24 +129,33 @@ PROPERTIES = {
         not_decided=['"every call completes" as termination: each future is proved DONE at the batch task\'s exit'],
     ),
     'C07': dict(
-        level='other', category='other',
-        explanation='BOUNDED (not proved): contracts of this property are checked at run time on the real code by a '
-                    'systematic enumeration in virtual time / under forced interleavings (scenarios/props/c07.py; bounds '
-                    'in its summary line). The deductive contracts for wait() barrier / shutdown are not discharged yet.',
-        assumptions=['bounded enumeration only: nothing outside the stated bounds is covered'],
-        not_decided=['everything beyond the bounds'],
-        technique='bounded run-time contract checking on the real code (stand-in for contract-based deductive '
-                  'verification, labelled bounded)',
+        level='proof', category='proof', always_standin=True,
+        explanation='safety kernel of the barrier and of shutdown: in _process_queue the flag is cleared after q.get() '
+                    'returns and before the first task_done() with no suspension between; each producer received in the '
+                    'round is marked done exactly once; the flag stays clear until a successful call; the round is left '
+                    'exceptionally only when the task is being cancelled, and a pending cancellation is never swallowed by '
+                    '_run_func / _load_inputs / the timed read (only wait()\'s flush request or the time-out mean "flush '
+                    'now"); wait(): join first, at most one flush request, only if asked, only on a still pending read, '
+                    'after yielding once, flag set before cancel, then waits for the completion flag; _put clears the '
+                    'flag before handing the producer over; _empty_queue marks done exactly what it yields',
+        assumptions=['A-propagate; Task.cancelling() (3.11+) reports a pending cancellation of the current task',
+                     'FIFO between the scheduled put and a later wait() of the same thread (Appendix B of DESIGN)',
+                     'hand lemma: with these contracts, join + flag-set imply every earlier submission was in a successful '
+                     'call'],
+        not_decided=['"wait() itself always returns once the function can succeed": liveness (bounded stand-in)'],
     ),
     'C08': dict(
-        level='other', category='other',
-        explanation='BOUNDED (not proved): contracts of this property are checked at run time on the real code by a '
-                    'systematic enumeration in virtual time / under forced interleavings (scenarios/props/c08.py; bounds '
-                    'in its summary line). The deductive contracts for debounce are not discharged yet.',
-        assumptions=['bounded enumeration only: nothing outside the stated bounds is covered'],
-        not_decided=['everything beyond the bounds'],
-        technique='bounded run-time contract checking on the real code (stand-in for contract-based deductive '
-                  'verification, labelled bounded)',
+        level='proof', category='proof', always_standin=True,
+        explanation='the wrapped function is called at exactly one site (_run_func), inline, at most once per attempt, '
+                    'with the round\'s own set and never with an empty one; _run_func is awaited inline by _process_queue, '
+                    'which is awaited inline, one at a time, forever, by _waiter, of which __init__ creates exactly one task '
+                    '(so calls cannot overlap); _schedule_with_timeout runs wait_for(coro, THIS object\'s timeout) on the '
+                    'instance\'s loop; every iteration of the round re-arms the timed read before loading and awaits the '
+                    'read armed in that iteration; the timed read is a read of the queue',
+        assumptions=['a coroutine awaited inline runs within its awaiter; wait_for stub; computation takes no ghost time'],
+        not_decided=['the debounce as a timed statement ("one call per burst, timeout after its last arrival"): '
+                     'follows from the re-arming obligations under the ghost clock by a hand argument; measured in '
+                     'virtual time only by the bounded stand-in'],
     ),
     'C09': dict(
         level='proof', category='proof', always_standin=True,
